@@ -33,12 +33,21 @@ Fixpoint of_json (j : json) : option ujson :=
 
 (** The spec predicate on the implementation's outcome: the canonical string is the spec's
     encoding of the value the implementation reports, and that value is representable. *)
-Definition spec_ok (impl : sx) : bool :=
+Definition spec_ok (t : str) (impl : sx) : bool :=
   match impl with
   | SL [SN 0; SL [jv; SS c]] =>
       match json_of_sx jv with
       | Some j => match of_json j with
-                  | Some u => uwfb u && str_eqb c (canonical_spec u)
+                  | Some u => uwfb u && str_eqb c (canonical_spec u) &&
+                              (* the reported value is the value of the text (RFC 8259 reading):
+                                 nothing unrepresentable was silently altered into it *)
+                              match parse_text t with
+                              | Some r => match to_canonical r with
+                                          | Some v => json_eqb v j
+                                          | None => false
+                                          end
+                              | None => false
+                              end
                   | None => false
                   end
       | None => false
@@ -55,6 +64,6 @@ Definition model_out (t : str) : sx :=
 
 Definition run (x : sx) : sx :=
   match x with
-  | SL [SL [SS t]; impl] => SL [model_out t; sx_bool (spec_ok impl)]
+  | SL [SL [SS t]; impl] => SL [model_out t; sx_bool (spec_ok t impl)]
   | _ => sx_bad
   end.
